@@ -29,7 +29,8 @@ type c9case struct {
 	Role    *rig.Role `json:"role,omitempty"`
 	OTC     string    `json:"otc"` // none | own | other
 	AddPath bool      `json:"addpath"`
-	Mode    string    `json:"mode"` // propagate | initial-dump | refresh
+	Mode    string    `json:"mode"`          // propagate | initial-dump | refresh
+	Unk     bool      `json:"unk,omitempty"` // wire half: the path also carries an unknown optional transitive attribute
 }
 
 const (
@@ -106,6 +107,9 @@ func (c c9case) path() rig.Attr {
 		a.ClusterList = []uint32{0x0B0B0B0B, 0x0C0C0C0C}
 	}
 	a.Comms = commSet(c.Comms)
+	if c.Unk {
+		a.Unknown = []rig.Unk{{Optional: true, Transitive: true, Type: 222, Value: []byte{1, 2, 3}}}
+	}
 	switch c.OTC {
 	case "own":
 		a.OTC = rig.DefaultLocal.ASN
@@ -432,7 +436,7 @@ func wireCase(r *vf.Run, c c9case) (sent bool) {
 }
 
 // wireHalf enumerates a sub-domain (2 AS_PATH shapes x 2 community sets x 4 sources x 4 targets x 6 role settings on
-// eBGP targets x OTC absent/other) at the wire.
+// eBGP targets x OTC absent/other x with/without an unknown optional transitive attribute) at the wire.
 func wireHalf(r *vf.Run) string {
 	n, sent := 0, 0
 	roles := []*rig.Role{nil, {Enabled: true, AdvByPeer: true, Local: 0, Remote: 3}, {Enabled: true, AdvByPeer: true, Local: 3, Remote: 0},
@@ -450,12 +454,17 @@ func wireHalf(r *vf.Run) string {
 							continue
 						}
 						for _, role := range rs {
-							c := c9case{Shape: shape, Comms: comms, Src: src, Target: tgt, Role: role, OTC: otc, Mode: "wire"}
-							n++
-							if wireCase(r, c) {
-								sent++
+							for _, unk := range []bool{false, true} {
+								if unk && src == "static" {
+									continue
+								}
+								c := c9case{Shape: shape, Comms: comms, Src: src, Target: tgt, Role: role, OTC: otc, Mode: "wire", Unk: unk}
+								n++
+								if wireCase(r, c) {
+									sent++
+								}
+								r.Eval(1)
 							}
-							r.Eval(1)
 						}
 					}
 				}
